@@ -305,7 +305,20 @@ def C17_race(strat: int, b0: bool, b1: bool, b2: bool, b3: bool, pv: int, mi: in
   for (m, batch) in out.drains:
     if m is not None and not batch:
       raise AssertionError('a drain returned %r without datapoints' % (m,))
+  left = _drain_rest(out.cache, True)
+  if left:
+    raise AssertionError('with no new input, repeated draining leaves datapoints in the cache: %r' % (left,))
   return True
+
+
+def _drain_rest(cache, coroutines):
+  """No new input from here on: keep draining (sequentially); whatever is still cached afterwards was never handed out."""
+  from vp_lib import sched
+  for _ in range(6):
+    res = sched.run_to_end(cache.drain_metric()) if coroutines else cache.drain_metric()
+    if res[0] is None:
+      break
+  return dict((m, dict(d)) for m, d in cache.items() if d)
 
 
 def replay_race(strat, b0, b1, b2, b3, pv, mi, ti, v, p1, n, p2, nd):
@@ -316,7 +329,9 @@ def replay_race(strat, b0, b1, b2, b3, pv, mi, ti, v, p1, n, p2, nd):
     raise RuntimeError('schedule could not be enforced on real threads: %r' % (out.replay_problems,))
   if out.errors:
     return False
-  return not [1 for (m, batch) in out.drains if m is not None and not batch]
+  if [1 for (m, batch) in out.drains if m is not None and not batch]:
+    return False
+  return not _drain_rest(out.cache, False)
 
 
 _RS = [('s%d_%s_m%d_d%d' % (i, n or 'none', m, d), 'strat == %d and mi == %d and nd == %d' % (i, m, d)) for i, n in enumerate(L.STRATEGY_NAMES) for m in range(3) for d in (1, 2)]
